@@ -13,6 +13,7 @@ import (
 	"fmt"
 	"os"
 	"runtime"
+	"runtime/debug"
 	"strings"
 	"sync"
 	"sync/atomic"
@@ -170,7 +171,7 @@ var caseHangs atomic.Int32
 func runCaseGuarded(sub uint64, ops []string) *caseResult {
 	ch := make(chan *caseResult, 1)
 	go func() { ch <- runOps(sub, ops) }()
-	limit := 300 * time.Second
+	limit := 180 * time.Second
 	if n := caseHangs.Load(); n > 10 {
 		limit = 2 * time.Second
 	} else if n > 0 {
@@ -282,6 +283,7 @@ func main() {
 		os.Exit(supervise())
 	}
 	loadChildEnv()
+	debug.SetMaxStack(128 << 20) // an unbounded recursion of the code under test (a link cycle) dies quickly and cheaply
 	if runtime.GOMAXPROCS(0) < 4 {
 		runtime.GOMAXPROCS(4) // the races the stress sections look for need real parallelism
 	}
